@@ -22,7 +22,9 @@ type c02Scenario struct {
 	visitors int
 }
 
-func c02ParkOn(l string) bool { return strings.HasPrefix(l, "gauge.update") || strings.HasPrefix(l, "gauge.report") }
+func c02ParkOn(l string) bool {
+	return strings.HasPrefix(l, "gauge.update") || strings.HasPrefix(l, "gauge.report")
+}
 
 func runC02(c *Ctx, sc c02Scenario, ch Chooser) (trace []string, failed bool) {
 	var logp *Log
